@@ -1028,6 +1028,10 @@ class Router:
             )
 
         meth = method_call.method_spec()
+        if overriding_name is not None:
+            # the program dispatches on the selector of the overriding name: the contract must
+            # describe the method under that same name
+            meth.name = overriding_name
         if description is not None:
             meth.desc = description
         self.methods.append(meth)
